@@ -237,9 +237,13 @@ fn check_req(reader: &IndexReader, docs: &[D], req: &Value, obs: &mut Obs) -> Re
   // ---- mismatch: classify against pool 0 / the engine's own pool
   let p = first_diff.unwrap_or(0);
   let engine_pool: &Vec<Entry> = if rk::is_score_desc(&sort) { &union } else { &prefix };
-  let slid = model(engine_pool, &by_id, &sort, window_size, limit, &mode, &r, &rejected, true);
   let mut t = 0;
-  let sig = if !rejected.is_empty() && same(&actual, &slid, &by_id, &sort, &mut t).is_none() {
+  // known quirk: the re-sorted prefix keeps its length after drops (whatever pool the engine used)
+  let slid_matches = [&prefix, &union].iter().any(|pool| {
+    let slid = model(pool, &by_id, &sort, window_size, limit, &mode, &r, &rejected, true);
+    same(&actual, &slid, &by_id, &sort, &mut t).is_none()
+  });
+  let sig = if !rejected.is_empty() && slid_matches {
     "resorted-prefix-not-shrunk-after-min-score-drop:unrescored-hits-sorted-into-window".to_string()
   } else {
     let exp = model(engine_pool, &by_id, &sort, window_size, limit, &mode, &r, &rejected, false);
